@@ -196,6 +196,15 @@ def check_decoder(ctx, layout, codec, source):
     if not any(chosen is d for d in fits):
         ctx.violation('decoder-mismatch', f'get_decoder({source}) returned a decoder not registered for a matching type',
                       {'source': source})
+        return
+    # a declared option that some registered decoder is registered for (format=pandas-split ...) names the payload layout: a
+    # decoder registered without it, chosen although one registered with it also matches, reads another layout than declared
+    mine = next(p for d, p in registered if d is chosen)
+    finer = [p for d, p in registered if d in fits and d is not chosen and p[0] == mine[0]
+             and set(mine[1].items()) < set(p[1].items())]
+    if finer:
+        ctx.violation('decoder-ignores-declared-option', f'get_decoder({source}) returned the decoder registered for {mine} although '
+                      f'the one registered for {finer[0]} matches the declared options too', {'source': source})
 
 
 def roundtrip_pairs(layout, codec, dsl):
@@ -329,6 +338,11 @@ def run(ctx):
     decopts = [{}, {'format': 'pandas-records'}, {'format': 'pandas-split'}, {'format': 'nonsense'}, {'charset': 'utf-8'},
                {'format': 'PANDAS-SPLIT'}, {'format': 'Pandas-Records'},
                {'format': 'pandas-columns', 'charset': 'utf-8'}]
+    # a declared format next to further parameters, in either order (clients add charset / version / profile)
+    for fmt in ('records', 'columns', 'index', 'split', 'table', 'values', 'nonsense'):
+        for extra in ({'charset': 'utf-8'}, {'version': '1', 'charset': 'ascii'}, {'a': 'x'}):
+            decopts.append({'format': f'pandas-{fmt}', **extra})
+            decopts.append({**extra, 'format': f'pandas-{fmt}'})
     for kind, opts in itertools.product(KINDS + NEAR + ['application/*'], decopts):
         check_decoder(ctx, layout, codec, (kind, opts))
     # -------- codec round trips
